@@ -19,6 +19,7 @@ they are names for "whatever this location held at entry".  There is no
 solver: facts are equalities/disequalities on such names and pruning is by
 direct contradiction only (in the style of metal/xgcc path-sensitive checkers).
 """
+import os
 import re
 from collections import namedtuple
 
@@ -88,7 +89,7 @@ class Engine:
                  inline_filter=None, fanout_traits=(), inline_queue_helpers=False):
         self.F = facts
         self.max_depth = max_depth
-        self.max_visits = max_visits
+        self.max_visits = int(os.environ.get('FI_MAX_VISITS', max_visits))   # loop unrolling: visits per block and frame
         self.max_paths = max_paths
         self.inline_filter = inline_filter
         self.inline_queue_helpers = inline_queue_helpers   # C20 looks inside the containers themselves
@@ -1325,6 +1326,12 @@ class Engine:
         if name == 'from_residual' and 'FromResidual' in (ci.get('trait') or '') + path:
             if args and (args[0] == NONE or 'Option' in path):
                 return [(st, NONE)]
+            # Result: `Err(e)?` returns Err(From::from(e)); with the same error type on both sides that is Err(e)
+            g = ci.get('gargs') or []
+            if args and args[0][0] == 'agg' and args[0][1] == RESULT and args[0][2] == 'Err' and len(g) == 2 \
+                    and all(x.get('path') == RESULT and len(x.get('args') or []) == 2 for x in g) \
+                    and g[0]['args'][1].get('str') == g[1]['args'][1].get('str'):
+                return [(st, args[0])]
             return None
 
         # ---- wakers
